@@ -118,6 +118,24 @@ def check_insert(B, A, parent_idx, ctx, omit_parent=False):
             exp = (*old[:3], (*old[3], m[broot]), *old[4:])
         if new != exp:
             bad("host:node-changed", f"A node {idx} changed from {old[1:]} to {new[1:]}")
+    # B can be inserted again: the second image is as good as the first and B is still untouched (metadata
+    # dictionaries are shared between B and its images by design - a shallow copy - so nothing is demanded of
+    # what happens when a caller edits them afterwards)
+    if not fails:
+        try:
+            mapping2 = A.insert_hugr(B, Node(parent_idx))
+        except Exception as e:  # noqa: BLE001
+            bad(f"second-insert:raised:{type(e).__name__}", f"inserting the same B a second time raised {type(e).__name__}: {e}")
+            return fails
+        m2 = {k.idx: v.idx for k, v in mapping2.items()}
+        a3_nodes, _ = dump(A)
+        for b, (opid, oprepr, par, kids, meta, nout, nin) in b_nodes.items():
+            if b in m2 and a3_nodes[m2[b]][3] != tuple(m2[c] for c in kids):
+                bad("second-insert:child-order", f"second image of B node {b} has children {a3_nodes[m2[b]][3]}, expected {tuple(m2[c] for c in kids)}")
+                break
+        if dump(B) != b_before:
+            bad("inserted-hugr-modified", "B was modified by the insertions")
+
     if dump(B) != b_before:
         bad("inserted-hugr-modified", "B was modified by the insertion")
     return fails
